@@ -149,7 +149,9 @@ def signer_spec(kinds=None, kl=None):
         'none': st.just({'kind': 'none'}),
         'digest': st.just({'kind': 'digest'}),
         'null': st.just({'kind': 'null'}),
-        'hmac': st.fixed_dictionaries({'kind': st.just('hmac'), 'kl': kl, 'hkey': st.binary(min_size=1, max_size=40).map(bytes.hex)}),
+        'hmac': st.fixed_dictionaries({'kind': st.just('hmac'), 'kl': kl, 'hkey': st.one_of(st.binary(min_size=1, max_size=40),
+                                                           st.sampled_from([32, 63, 64, 65, 128, 200]).flatmap(
+                                                               lambda n: st.binary(min_size=n, max_size=n))).map(bytes.hex)}),
         'rsa': st.fixed_dictionaries({'kind': st.just('rsa'), 'kl': kl, 'key': st.sampled_from(RSA_KEYS)}),
         'ecdsa': st.fixed_dictionaries({'kind': st.just('ecdsa'), 'kl': kl, 'key': st.sampled_from(EC_KEYS),
                                         'drbg': st.integers(0, 2 ** 32)}),
